@@ -37,10 +37,10 @@ def main(tier):
     rng = random.Random(run.seed)
     items = []
     for name, text in gen.cast_matrix():
-        items.append(dict(name=name, text=text))
+        items.append(dict(name=name, text=text, exports=gen.cast_exports(name)))
     items.extend(gen.cast_call_matrix())
     for name, text in gen.chained_assignments(rng, tier == "thorough"):
-        items.append(dict(name=name, text=text))
+        items.append(dict(name=name, text=text, exports=gen.cast_exports(name)))
     for name, text in gen.cast_chains(rng, 120 if tier == "quick" else 1500):
         items.append(dict(name=name, text=text))
     for it in items:
